@@ -1,6 +1,7 @@
 package main
 
 import (
+	"go/token"
 	"fmt"
 	"strings"
 
@@ -397,7 +398,16 @@ func (c *Ctx) checkSyncLoopWindow(sl *ssa.Function) {
 			if !ok || f.Succ != 0 {
 				continue
 			}
-			if _, isInc := bo.X.(*ssa.BinOp); isInc && bo.Op.String() == "<" && reachesBlock(send.Block(), f.From) {
+			_, isInc := bo.X.(*ssa.BinOp)
+			if ph, isPhi := bo.X.(*ssa.Phi); isPhi {
+				// for i := 0; i < n; i++ — the counter is a phi fed by its own increment
+				for _, e := range ph.Edges {
+					if inc, ok := e.(*ssa.BinOp); ok && inc.Op == token.ADD && (inc.X == ssa.Value(ph) || inc.Y == ssa.Value(ph)) {
+						isInc = true
+					}
+				}
+			}
+			if isInc && bo.Op.String() == "<" && reachesBlock(send.Block(), f.From) && reachesBlock(f.From, send.Block()) {
 				bound = bo.Y
 			}
 		}
